@@ -45,6 +45,25 @@ def generate(api):
     rel = "src/engine/materialize/spec.rs"
     t = api.src(rel)
     api.grab(t, r"Some\(existing_ts\) => existing_ts < watermark_ts,\s*None => true,", rel, "delta SINCE = max(since, mark.ts)")
+    # --- which mark the delta filter compares against: the sink's (frame manifest), never the
+    #     catalog entry's (the entry is rewritten only at the end of a completed SHOW)
+    rel = "src/command/handlers/show/delta/refresher.rs"
+    t = api.src(rel)
+    m = api.grab(t, r"pub fn new\((.*?)\n    \}\n", rel, "DeltaRefresher::new body", re.S)
+    body = m.group(1)
+    api.grab(body, r"let initial_high_water = sink\.high_water_mark\(\);", rel,
+             "delta filter mark = sink.high_water_mark() (manifest)")
+    if re.search(r"entry\s*\.\s*high_water_mark", body):
+        raise api.Missing(f"{rel}: DeltaRefresher::new reads the catalog entry's mark")
+    api.grab(body, r"WatermarkDeduplicator::new\(initial_high_water, timestamp_idx, event_idx\)", rel,
+             "filter built from that mark")
+    rel = "src/command/handlers/show/orchestrator.rs"
+    t = api.src(rel)
+    api.grab(t, r"let initial_high_water = delta_refresher\.initial_high_water\(\);", rel,
+             "zone guard uses the refresher's mark")
+    api.grab(t, r"response_writer\.write\(stream\)\.await\?;\s*let sink = delta_refresher\.take_sink\(\)\?;\s*"
+                r"let outcome = self\.build_outcome\(entry, sink, initial_high_water\);\s*self\.persist_outcome\(", rel,
+             "catalog entry rewritten only after the response was written")
     # --- barriers
     rel = "src/command/handlers/remember.rs"
     t = api.src(rel)
@@ -62,4 +81,6 @@ def generate(api):
              "SHOW always passes the high-water second")
     return (f"/-- `cutoff.saturating_sub(N)` of `file_definitely_stale` -/\ndef staleSlack : Nat := {slack}\n"
             "/-- `segment_fully_materialized` quantifies over ALL zone metas of the segment (checked in the source) -/\n"
-            "def segmentGuardAllZones : Bool := true\n")
+            "def segmentGuardAllZones : Bool := true\n"
+            "/-- the delta row filter compares against the sink's (manifest) mark (checked in the source) -/\n"
+            "def deltaFilterFromSink : Bool := true\n")
